@@ -300,6 +300,8 @@ def host_perturbations(host):
         kinds.append("schedule")
     if host.get("tty"):
         kinds.append("tty")
+    if host.get("desktop"):
+        kinds.append("desktop_session")
     if host.get("extra_env"):
         kinds.append("discovered_env")
     if host.get("user") or host.get("hostname") or host.get("columns") or host.get("umask") is not None:
